@@ -296,6 +296,17 @@ def who(ctx):
                    "" if ok else "non-const use (%s) in %s" % (acc, f.name), fn=f.label, inst=f.qname)
 
 
+def ptr_of(f, e):
+    """path of the pointer through which the object expression e is reached (`*p`, or a reference bound to `*p`)"""
+    e = unwrap(f, e)
+    if e is None:
+        return None
+    if e["k"] == "UnaryOperator" and e["op"] == "*":
+        return path(f, f.children(e)[0])
+    p = path(f, e)
+    return p[1:] if p and p.startswith("*") else None
+
+
 def handler_rules(ctx, rid="C03.handlers"):
     """the catch handlers of modify write only through the pointer that is being applied in their try block
     (the copy readers are not directed to at that point)"""
@@ -306,9 +317,7 @@ def handler_rules(ctx, rid="C03.handlers"):
             applied = None
             for d in f.descendants(body):
                 if d["k"] == "CXXOperatorCallExpr" and d.get("op") == "()" and len(d["args"]) >= 2:
-                    a = unwrap(f, f.s(d["args"][1]))
-                    if a is not None and a["k"] == "UnaryOperator" and a["op"] == "*":
-                        applied = path(f, f.children(a)[0])
+                    applied = ptr_of(f, f.s(d["args"][1])) or applied
             if applied is None:
                 ctx.ob(rid, False, f.loc(ts), "try block of modify applies the functor through a write pointer",
                        "cannot find the application", fn=f.label, inst=f.qname)
@@ -324,10 +333,9 @@ def handler_rules(ctx, rid="C03.handlers"):
                         tgt = unwrap(f, f.children(d)[0])
                     if tgt is None:
                         continue
-                    if tgt["k"] == "UnaryOperator" and tgt["op"] == "*":
-                        pv = path(f, f.children(tgt)[0])
-                    else:
-                        pv = path(f, tgt)
+                    if tgt["k"] == "DeclRefExpr" and tgt["d"].get("inl_ret"):
+                        continue        # result hand-over of an inlined helper, not a write to the payload
+                    pv = ptr_of(f, tgt) or path(f, tgt)
                     ok = pv == applied
                     ctx.ob(rid, ok, f.loc(d), "the handler writes only through %s (the copy being modified in this try)" % applied,
                            "" if ok else "it writes through %s: the copy readers are using (or will be directed to) "
@@ -348,9 +356,7 @@ def lr_handlers(ctx, rid="C20.lr"):
         ctx.ob(rid, ok, f.where, "modify applies the functor exactly twice", "" if ok else str(len(applies)), fn=f.label, inst=f.qname)
         ptrs = []
         for a in applies:
-            tgt = unwrap(f, f.s(a["args"][1]))
-            pv = path(f, f.children(tgt)[0]) if tgt is not None and tgt["k"] == "UnaryOperator" and tgt["op"] == "*" else None
-            ptrs.append(pv)
+            ptrs.append(ptr_of(f, f.s(a["args"][1])))
         for a, pv in zip(applies, ptrs):
             other = [p for p in ptrs if p != pv]
             other = other[0] if other else None
@@ -374,15 +380,10 @@ def lr_handlers(ctx, rid="C20.lr"):
                 asg = []
                 for d in f.descendants(body):
                     if d["k"] == "CXXOperatorCallExpr" and d.get("op") == "=" and len(d["args"]) == 2:
-                        l = unwrap(f, f.s(d["args"][0]))
-                        r = unwrap(f, f.s(d["args"][1]))
-                        lp = path(f, f.children(l)[0]) if l is not None and l["k"] == "UnaryOperator" and l["op"] == "*" else None
-                        rp = path(f, f.children(r)[0]) if r is not None and r["k"] == "UnaryOperator" and r["op"] == "*" else None
-                        asg.append((lp, rp))
+                        asg.append((ptr_of(f, f.s(d["args"][0])), ptr_of(f, f.s(d["args"][1]))))
                     if d["k"] == "BinaryOperator" and d["op"] == "=":
-                        l, r = [unwrap(f, x) for x in f.children(d)]
-                        lp = path(f, f.children(l)[0]) if l is not None and l["k"] == "UnaryOperator" and l["op"] == "*" else None
-                        rp = path(f, f.children(r)[0]) if r is not None and r["k"] == "UnaryOperator" and r["op"] == "*" else None
+                        l, r = f.children(d)
+                        lp, rp = ptr_of(f, l), ptr_of(f, r)
                         if lp or rp:
                             asg.append((lp, rp))
                 rethrow = any(d["k"] == "CXXThrowExpr" and d.get("rethrow") for d in f.descendants(body))
